@@ -30,6 +30,9 @@ if TYPE_CHECKING:
     from .match import JSONPathMatch
 
 
+RE_INDEX = re.compile(r"0|-?[1-9][0-9]*")
+
+
 class _Undefined:
     def __str__(self) -> str:
         return "<jsonpath.pointer.UNDEFINED>"
@@ -108,8 +111,10 @@ class JSONPointer:
         )[1:]
 
     def _index(self, s: str) -> Union[str, int]:
-        # Reject non-zero ints that start with a zero.
-        if len(s) > 1 and s.startswith("0"):
+        # Only canonical decimal integers are array indices. `int()` alone would
+        # also accept "+1", " 1", "1_0", "-0", "01" and non-ASCII digits, which
+        # are ordinary member names.
+        if not RE_INDEX.fullmatch(s):
             return s
 
         try:
